@@ -1,0 +1,194 @@
+//! Accessors to crate-private state for the `hx_gc` interpreter (add-only; feature `mmtk_verif`).
+
+use crate::plan::{AllocationSemantics, Mutator};
+use crate::policy::immix::block::{Block, BlockState};
+use crate::policy::immix::line::Line;
+use crate::policy::immix::ImmixSpace;
+use crate::policy::space::Space;
+use crate::util::heap::chunk_map::Chunk;
+use crate::util::linear_scan::Region;
+use crate::util::Address;
+use crate::vm::VMBinding;
+use crate::MMTK;
+
+/// What `stats` prints per space.
+#[derive(Clone, Debug)]
+pub struct SpaceInfo {
+    /// space name
+    pub name: &'static str,
+    /// reserved pages of the space's page resource
+    pub reserved_pages: usize,
+    /// committed pages of the space's page resource
+    pub committed_pages: usize,
+    /// start of the space (zero for discontiguous spaces)
+    pub start: Address,
+    /// extent of the space (zero for discontiguous spaces)
+    pub extent: usize,
+    /// contiguous?
+    pub contiguous: bool,
+    /// raw descriptor
+    pub descriptor: usize,
+    /// descriptor index
+    pub index: usize,
+}
+
+/// Every space of the current plan (in `for_each_space` order).
+pub fn spaces<VM: VMBinding>(mmtk: &MMTK<VM>) -> Vec<SpaceInfo> {
+    let mut out = Vec::new();
+    mmtk.get_plan().for_each_space(&mut |s: &dyn Space<VM>| {
+        let c = s.common();
+        let pr = s.get_page_resource();
+        out.push(SpaceInfo {
+            name: s.get_name(),
+            reserved_pages: pr.reserved_pages(),
+            committed_pages: pr.committed_pages(),
+            start: c.start,
+            extent: c.extent,
+            contiguous: c.contiguous,
+            descriptor: unsafe { std::mem::transmute::<_, usize>(c.descriptor) },
+            index: c.descriptor.get_index(),
+        });
+    });
+    out
+}
+
+/// `SFT_MAP.get_checked(addr).name()`.
+pub fn sft_name(addr: Address) -> &'static str {
+    crate::mmtk::SFT_MAP.get_checked(addr).name()
+}
+
+/// `VM_MAP.get_descriptor_for_address(addr)` as raw bits.
+pub fn descriptor_for_address(addr: Address) -> usize {
+    let d = crate::mmtk::VM_MAP.get_descriptor_for_address(addr);
+    unsafe { std::mem::transmute::<_, usize>(d) }
+}
+
+/// The mutator's allocator mapping: `(semantics, selector as Debug string, space name)`.
+pub fn allocator_mapping<VM: VMBinding>(mutator: &Mutator<VM>) -> Vec<(AllocationSemantics, String, &'static str)> {
+    let mut out = Vec::new();
+    for (sem, sel) in mutator.config.allocator_mapping.iter() {
+        let space = mutator
+            .config
+            .space_mapping
+            .iter()
+            .find(|(s, _)| s == sel)
+            .map(|(_, sp)| sp.get_name())
+            .unwrap_or("-");
+        out.push((sem, format!("{:?}", sel), space));
+    }
+    out
+}
+
+/// The plan's number of GC workers.
+pub fn num_workers<VM: VMBinding>(mmtk: &MMTK<VM>) -> usize {
+    mmtk.scheduler.num_workers()
+}
+
+/// Is the current GC (or the last one) an emergency collection?
+pub fn is_emergency<VM: VMBinding>(mmtk: &MMTK<VM>) -> bool {
+    mmtk.is_emergency_collection()
+}
+
+// ------------------------------------------------------------------------------------------
+// Immix
+// ------------------------------------------------------------------------------------------
+
+/// One Immix block: start, state byte (0 unallocated, 255 unmarked, 254 marked, else reusable
+/// with that many unavailable lines), and the line mark bytes.
+#[derive(Clone, Debug)]
+pub struct ImmixBlockInfo {
+    /// block start
+    pub start: Address,
+    /// block state byte
+    pub state: u8,
+    /// defrag source?
+    pub defrag_source: bool,
+    /// one mark byte per line
+    pub lines: Vec<u8>,
+}
+
+/// The state of one ImmixSpace.
+#[derive(Clone, Debug)]
+pub struct ImmixInfo {
+    /// space name
+    pub name: &'static str,
+    /// `line_mark_state`
+    pub line_mark_state: u8,
+    /// `line_unavail_state`
+    pub line_unavail_state: u8,
+    /// bytes per block / bytes per line
+    pub block_bytes: usize,
+    /// bytes per line
+    pub line_bytes: usize,
+    /// all allocated (state != Unallocated) blocks of all allocated chunks, by address
+    pub blocks: Vec<ImmixBlockInfo>,
+}
+
+fn with_immix<VM: VMBinding, R>(mmtk: &MMTK<VM>, f: &mut dyn FnMut(&ImmixSpace<VM>) -> R) -> Vec<R> {
+    let mut out = Vec::new();
+    mmtk.get_plan().for_each_space(&mut |s: &dyn Space<VM>| {
+        if let Some(ix) = s.downcast_ref::<ImmixSpace<VM>>() {
+            out.push(f(ix));
+        }
+    });
+    out
+}
+
+/// Dump every ImmixSpace of the plan (empty vec for non-Immix plans).
+pub fn immix_dump<VM: VMBinding>(mmtk: &MMTK<VM>) -> Vec<ImmixInfo> {
+    with_immix(mmtk, &mut |ix: &ImmixSpace<VM>| {
+        let mut blocks = Vec::new();
+        for chunk in ix.chunk_map.all_chunks() {
+            for block in chunk.iter_region::<Block>() {
+                let st = block.get_state();
+                if st == BlockState::Unallocated {
+                    continue;
+                }
+                let tab = block.line_mark_table();
+                let lines = (0..tab.len()).map(|i| tab.get(i)).collect();
+                blocks.push(ImmixBlockInfo {
+                    start: block.start(),
+                    state: u8::from(st),
+                    defrag_source: block.is_defrag_source(),
+                    lines,
+                });
+            }
+        }
+        blocks.sort_by_key(|b| b.start);
+        ImmixInfo {
+            name: ix.get_name(),
+            line_mark_state: ix.line_mark_state.load(std::sync::atomic::Ordering::SeqCst),
+            line_unavail_state: ix.verif_line_unavail_state(),
+            block_bytes: Block::BYTES,
+            line_bytes: Line::BYTES,
+            blocks,
+        }
+    })
+}
+
+/// The real `get_next_available_lines(block.start_line + start_line)` of the ImmixSpace that owns
+/// `block_start`; result as line indices within the block `(start, end)`.
+/// `Err` if `block_start` is not an allocated block of an ImmixSpace of the plan.
+pub fn immix_holes<VM: VMBinding>(
+    mmtk: &MMTK<VM>,
+    block_start: Address,
+    start_line: usize,
+) -> Result<Option<(usize, usize)>, &'static str> {
+    if !block_start.is_aligned_to(Block::BYTES) {
+        return Err("unaligned");
+    }
+    if start_line >= Block::LINES {
+        return Err("line-out-of-range");
+    }
+    let r = with_immix(mmtk, &mut |ix: &ImmixSpace<VM>| {
+        let chunk = Chunk::from_unaligned_address(block_start);
+        if ix.chunk_map.get(chunk).is_none() {
+            return None;
+        }
+        let block = Block::from_aligned_address(block_start);
+        let first = block.start_line();
+        let res = ix.get_next_available_lines(first.next_nth(start_line));
+        Some(res.map(|(s, e)| ((s.start() - first.start()) / Line::BYTES, (e.start() - first.start()) / Line::BYTES)))
+    });
+    r.into_iter().flatten().next().ok_or("not-immix-block")
+}
